@@ -248,8 +248,9 @@ CHECKS = {
             "invariants": ["TypeOK"], "properties": ["ErrNoChange", "ByteExact", "Frame"]},
         level_text="", assumptions=KV_ASSUME),
     "C04": SeqCheck(
-        drivers={"quick": [["-family", "expiry", "-n", "700", "-len", "40"]],
-                 "thorough": [["-family", "expiry", "-n", "5000", "-len", "60"], ["-family", "kv", "-n", "1500", "-len", "60"]]},
+        drivers={"quick": [["-family", "expiry", "-n", "560", "-len", "40"], ["-family", "kv-extra", "-n", "140", "-len", "40"]],
+                 "thorough": [["-family", "expiry", "-n", "5000", "-len", "60"], ["-family", "kv", "-n", "1500", "-len", "60"],
+                              ["-family", "kv-extra", "-n", "1500", "-len", "60"]]},
         mc={"module": "MC_Store", "consts": mc_store(2, 3),
             "invariants": ["TypeOK", "Unobservable", "TtlAgrees"],
             "properties": ["TickKeepsStore", "FreshDeadline", "Frame"]},
@@ -257,9 +258,9 @@ CHECKS = {
             "the server runs under the virtual clock of the verif build; the background sampler is invoked by the driver "
             "(VerifRunSampler = one call of evictKeysWithExpiredTTL), its ticker goroutine is not started (noeviction)"]),
     "C13": SeqCheck(
-        drivers={"quick": [["-family", "kv-canon", "-n", "200", "-len", "40"]] +
+        drivers={"quick": [["-family", "kv-canon", "-n", "140", "-len", "40"], ["-family", "kv-extra", "-n", "60", "-len", "40"]] +
                           [["-family", f, "-n", "200", "-len", "40"] for f in ("set", "zset", "hash", "list")],
-                 "thorough": [["-family", "kv-canon", "-n", "2000", "-len", "60"]] +
+                 "thorough": [["-family", "kv-canon", "-n", "2000", "-len", "60"], ["-family", "kv-extra", "-n", "1000", "-len", "60"]] +
                              [["-family", f, "-n", "3000", "-len", "60"] for f in ("set", "zset", "hash", "list")]},
         mc={"module": "MC_Store", "consts": mc_store(2, 3),
             "invariants": ["TypeOK"], "properties": ["ReadOnlyPure", "ErrNoChange", "Frame"]},
